@@ -30,6 +30,7 @@ type TempPool struct {
 	cleanRemovedBallotDeep            int
 	setproposall                      sync.Mutex
 	setballotl                        sync.Mutex
+	expeloperationl                   sync.Mutex
 }
 
 func NewTempPool(
@@ -522,6 +523,10 @@ func (db *TempPool) SetSuffrageExpelOperation(op base.SuffrageExpelOperation) er
 		return e.Wrap(err)
 	}
 
+	// NOTE not in the middle of RemoveSuffrageExpelOperationsByHeight
+	db.expeloperationl.Lock()
+	defer db.expeloperationl.Unlock()
+
 	if err := pst.Put(newSuffrageExpelOperationKey(op.ExpelFact()), opb, nil); err != nil {
 		return e.Wrap(err)
 	}
@@ -600,6 +605,10 @@ func (db *TempPool) RemoveSuffrageExpelOperationsByHeight(height base.Height) er
 
 	batch := pst.NewBatch()
 	defer batch.Reset()
+
+	// NOTE scan and delete should be atomic against SetSuffrageExpelOperation
+	db.expeloperationl.Lock()
+	defer db.expeloperationl.Unlock()
 
 	if err := pst.Iter(
 		leveldbutil.BytesPrefix(leveldbKeySuffrageExpelOperation[:]), func(key, b []byte) (bool, error) {
